@@ -923,7 +923,7 @@ Section Theorems.
      exists root', decrypt_assertions decrypt root = Ok root' /\ Forall (CoveredAssertion store now root') (r_assertions r)).
   Proof.
     intros Hs H.
-    destruct (response_sound _ _ _ _ _ _ Hs H) as [_ [(signed & signed' & r0 & Hd & Hdec & Hu & ->)|(r0 & root' & Hd & _ & Hdec & _ & -> & HV)]].
+    destruct (response_sound _ _ _ _ _ _ Hs H) as [_ [(signed & signed' & r0 & Hd & Hdec & Hu & ->)|(r0 & root' & Hd & _ & Hdec & _ & -> & HV & _)]].
     - left. split; [reflexivity|]. exists signed, signed', r0. repeat split; auto. apply dsig_sound; exact Hd.
     - right. split; [reflexivity|]. split; [apply (missing_iff_find store now); exact Hd|].
       exists root'. split; [exact Hdec|]. cbn [r_assertions with_flag] in *.
